@@ -22,7 +22,8 @@ outside the repository with their own copy of Cargo.lock.
 Environment: VERIF_ROOT (evidence/, replays/, KNOWN_FINDINGS.jsonl; default /verif), VERIF_REPO
 (repository under test; default /repo), VERIF_SEED (recorded only; nothing is random), VERIF_JOBS
 (number of parallel workers), VERIF_FEAT_TARGET_BASE (default /verif/.target), VERIF_FEAT_RUN_DIR
-(default /verif/.run/feat), VERIF_FEAT_KEEP_SEED=0 to also remove the warm seed target dir.
+(default /verif/.run/feat), VERIF_FEAT_KEEP_SEED=0 to also remove the warm seed target dir,
+VERIF_FEAT_ONLY=<regex> to run only the configurations whose description matches (partial run).
 
 Exit: 0 held (known findings print KNOWN-FINDING lines), 1 unlisted violation, 2 machinery failure.
 """
@@ -584,7 +585,17 @@ def main():
     feats, extra_pkgs = load_features()
     crate_jobs, controls = enumerate_crate_jobs(feats, tier)
     ds_jobs = enumerate_downstream_jobs(tier)
+    only = os.environ.get("VERIF_FEAT_ONLY")
+    if only:
+        # development / demonstration aid: restrict the run to the configurations whose description
+        # matches the regular expression (reported as a cap; the evidence then covers only that part)
+        rx = re.compile(only)
+        crate_jobs = [j for j in crate_jobs if rx.search(describe(j))]
+        ds_jobs = [j for j in ds_jobs if rx.search(describe(j))]
+        controls = [j for j in controls if rx.search(describe(j))]
     jobs = crate_jobs + ds_jobs + controls
+    if not jobs:
+        machinery_failure("VERIF_FEAT_ONLY=%r selects no configuration" % only)
     log("%d crate configurations, %d downstream crates, %d controls" % (len(crate_jobs), len(ds_jobs), len(controls)))
 
     _run_dir = os.path.join(RUN_BASE, "run-%d" % PID)
@@ -749,6 +760,8 @@ def main():
     else:
         caps.append("thorough tier: zvariant subsets of size <= 3 and their complements (not the full 2^%d powerset); "
                     "zbus: runtime x pairs, all-but-one (not the full powerset)" % len(feats["zvariant"]))
+    if only:
+        caps.append("VERIF_FEAT_ONLY=%r: only the matching configurations were run" % only)
     wall = round(time.time() - t_start, 3)
     evaluations = len(jobs)
     cov = {
